@@ -29,6 +29,54 @@ theorem getLast?_map_range (l : List α) (f : α → Nat) (h : l.map f = List.ra
   rw [List.getLast?_map] at this
   rw [this, List.getLast?_range]
 
+/-! ## `checkEvents` only lets a stream continue under its own partition key -/
+
+theorem checkEvents_keys (s : Spec) (pkey : Nat) (es : List NewEv) (seen : List (Nat × Nat)) (vs : List Nat)
+    (h : s.checkEvents pkey es seen = .ok vs) :
+    ∀ ne ∈ es, (seen.find? (·.1 == ne.stream)).isSome = true ∨
+      ∀ k v, s.streamLatest ne.stream = some (k, v) → k = pkey := by
+  induction es generalizing seen vs with
+  | nil => intro ne hne; simp at hne
+  | cons e es ih =>
+    rw [checkEvents_cons_eq] at h
+    cases hc : curOf s pkey seen e.stream with
+    | error err => simp only [hc] at h; cases h
+    | ok c =>
+      simp only [hc] at h
+      split at h
+      · cases h
+      · cases hr : s.checkEvents pkey es ((e.stream, nextOf c) :: seen.filter (·.1 != e.stream)) with
+        | error err => simp only [hr, Except.map] at h; cases h
+        | ok vs' =>
+          have hhead : (seen.find? (·.1 == e.stream)).isSome = true ∨
+              ∀ k v, s.streamLatest e.stream = some (k, v) → k = pkey := by
+            unfold curOf at hc
+            cases hf : seen.find? (·.1 == e.stream) with
+            | some p => left; rfl
+            | none =>
+              right
+              simp only [hf] at hc
+              intro k v hl
+              simp only [hl] at hc
+              split at hc
+              · cases hc
+              · rename_i hk
+                simpa using hk
+          intro ne hne
+          cases List.mem_cons.mp hne with
+          | inl heq => rw [heq]; exact hhead
+          | inr hmem =>
+            by_cases hs : ne.stream = e.stream
+            · rw [hs]; exact hhead
+            · cases ih _ _ hr ne hmem with
+              | inl hl =>
+                left
+                have hne' : (e.stream == ne.stream) = false := by simp; exact fun h => hs h.symm
+                simp only [List.find?_cons, hne'] at hl
+                rw [find_filter_ne seen e.stream ne.stream hs] at hl
+                exact hl
+              | inr hr' => exact Or.inr hr'
+
 /-! ## the invariant -/
 
 /-- what every command history maintains: event ids embed their partition, partition sequences
@@ -37,6 +85,7 @@ structure WF (N : Nat) (s : Spec) : Prop where
   ids : ∀ e ∈ s.events, uuidHash e.eid = uuidHash e.pkey ∧ e.pid = uuidHash e.pkey % N
   seqs : ∀ p, (s.events.filter (·.pid == p)).map (·.seq) = List.range (s.events.filter (·.pid == p)).length
   vers : ∀ k, (s.events.filter (·.stream == k)).map (·.version) = List.range (s.events.filter (·.stream == k)).length
+  keys : ∀ e1 ∈ s.events, ∀ e2 ∈ s.events, e1.stream = e2.stream → e1.pkey = e2.pkey
 
 theorem last_plus_one (l : List Ev) (f : Ev → Nat) (h : l.map f = List.range l.length) :
     (match l.getLast? with | some e => f e + 1 | none => 0) = l.length := by
@@ -121,6 +170,21 @@ theorem range_extend (l new : List Nat) (n m : Nat) (hl : l = List.range n) (hn 
     l ++ new = List.range (n + m) := by
   rw [hl, hn, range_append_range']
 
+theorem old_key_eq {N : Nat} {s : Spec} (h : WF N s) (e1 : Ev) (he1 : e1 ∈ s.events) (pk : Nat)
+    (hall : ∀ k v, s.streamLatest e1.stream = some (k, v) → k = pk) : e1.pkey = pk := by
+  unfold Spec.streamLatest at hall
+  cases hf : s.events.reverse.find? (·.stream == e1.stream) with
+  | none =>
+    rw [List.find?_eq_none] at hf
+    have := hf e1 (List.mem_reverse.mpr he1)
+    simp at this
+  | some el =>
+    have hmem : el ∈ s.events := List.mem_reverse.mp (List.mem_of_find?_eq_some hf)
+    have hst : (el.stream == e1.stream) = true := List.find?_some (p := fun (e : Ev) => e.stream == e1.stream) hf
+    have hk := hall el.pkey el.version (by rw [hf]; rfl)
+    rw [← hk]
+    exact h.keys e1 he1 el hmem (beq_iff_eq.mp hst).symm
+
 theorem wf_append {N : Nat} {s : Spec} (h : WF N s) (tx : Tx) (hany : tx.expectedSeq = .any)
     (hpid : tx.pid = uuidHash tx.pkey % N) (hids : ∀ e ∈ tx.events, uuidHash e.eid = uuidHash tx.pkey)
     (s' : Spec) (f l : Nat) (ha : s.append tx = .ok (s', f, l)) : WF N s' := by
@@ -136,7 +200,18 @@ theorem wf_append {N : Nat} {s : Spec} (h : WF N s) (tx : Tx) (hany : tx.expecte
       have hvs := checkEvents_assign _ _ _ _ _ hc
       have hlen := checkEvents_length _ _ _ _ _ hc
       have hfix := mkEvs_fixed tx (s.nextSeq tx.pid) tx.events vs
-      refine ⟨?_, ?_, ?_⟩
+      -- an old event of a stream the transaction writes has the transaction's partition key
+      have hold : ∀ e1 ∈ s.events, ∀ e2 ∈ mkEvs tx (s.nextSeq tx.pid) tx.events vs, e1.stream = e2.stream →
+          e1.pkey = tx.pkey := by
+        intro e1 he1 e2 he2 hst
+        have : e2.stream ∈ (mkEvs tx (s.nextSeq tx.pid) tx.events vs).map (·.stream) := List.mem_map.mpr ⟨e2, he2, rfl⟩
+        rw [mkEvs_streams _ _ _ _ hlen] at this
+        obtain ⟨ne, hne, heq⟩ := List.mem_map.mp this
+        apply old_key_eq h e1 he1
+        rcases checkEvents_keys _ _ _ _ _ hc ne hne with hl | hr
+        · simp at hl
+        · rw [hst, ← heq]; exact hr
+      refine ⟨?_, ?_, ?_, ?_⟩
       · intro e he
         rw [events_snoc] at he
         cases List.mem_append.mp he with
@@ -166,11 +241,22 @@ theorem wf_append {N : Nat} {s : Spec} (h : WF N s) (tx : Tx) (hany : tx.expecte
           have hl := congrArg List.length this
           simp only [List.length_map, List.length_range'] at hl
           rw [this, hl]
+      · intro e1 he1 e2 he2 hst
+        rw [events_snoc] at he1 he2
+        cases List.mem_append.mp he1 with
+        | inl h1 =>
+          cases List.mem_append.mp he2 with
+          | inl h2 => exact h.keys e1 h1 e2 h2 hst
+          | inr h2 => rw [(hfix e2 h2).1]; exact hold e1 h1 e2 h2 hst
+        | inr h1 =>
+          cases List.mem_append.mp he2 with
+          | inl h2 => rw [(hfix e1 h1).1]; exact (hold e2 h2 e1 h1 hst.symm).symm
+          | inr h2 => rw [(hfix e1 h1).1, (hfix e2 h2).1]
 
 /-! ## every request preserves the invariant -/
 
 theorem wf_empty (N : Nat) : WF N ({} : ServerState).abs := by
-  refine ⟨?_, ?_, ?_⟩ <;> simp [ServerState.abs, Spec.events]
+  refine ⟨?_, ?_, ?_, ?_⟩ <;> simp [ServerState.abs, Spec.events]
 
 theorem modChk_eq {a n pid : Nat} (hN : 0 < n) (h : modChk a n = some pid) : pid = a % n := by
   rw [modChk_pos a n hN] at h; cases h; rfl
@@ -443,11 +529,32 @@ theorem partRange_mem (st : ServerState) (pid start : Nat) (endSeq : Option Nat)
 theorem pid_seq_lt (cfg : Cfg) (st : ServerState) (hwf : WF cfg.numPartitions st.abs) (e : SEv) (he : e ∈ st.events) :
     e.ev.seq < st.watermark e.ev.pid := seq_lt_next hwf e.ev (mem_abs_events st e he)
 
+theorem takeWhile_congr_mem (l : List α) (p q : α → Bool) (h : ∀ x ∈ l, p x = q x) :
+    l.takeWhile p = l.takeWhile q := by
+  induction l with
+  | nil => rfl
+  | cons a l ih =>
+    simp only [List.takeWhile_cons, h a (by simp)]
+    rw [ih (fun x hx => h x (by simp [hx]))]
+
 /-- what the partition read loop collects before `count` cuts it: exactly the events of the range -/
 theorem partition_takeWhile (cfg : Cfg) (st : ServerState) (pid start : Nat) (endSeq : Option Nat)
     (hwf : WF cfg.numPartitions st.abs) :
-    (partitionFrom st pid start).takeWhile (fun e => decide (e.ev.seq ≤ effEnd endSeq (st.watermark pid))) =
+    (partitionFrom st pid start).takeWhile (fun e => inPartRange endSeq (st.watermark pid) e) =
       partRange st pid start endSeq := by
+  have hcongr : (partitionFrom st pid start).takeWhile (fun e => inPartRange endSeq (st.watermark pid) e) =
+      (partitionFrom st pid start).takeWhile (fun e => decide (e.ev.seq ≤ effEnd endSeq (st.watermark pid))) := by
+    apply takeWhile_congr_mem
+    intro x hx
+    have hm := List.mem_filter.mp hx
+    have hp : x.ev.pid = pid := by
+      have := hm.2
+      simp only [Bool.and_eq_true, beq_iff_eq] at this
+      exact this.1
+    have hlt := pid_seq_lt cfg st hwf x hm.1
+    rw [hp] at hlt
+    simp [inPartRange, hlt]
+  rw [hcongr]
   have hsorted : ((partitionFrom st pid start).map (fun e => e.ev.seq)).Pairwise (· < ·) := by
     have := partRange_sorted cfg st pid start none hwf
     have heq : partRange st pid start none = partitionFrom st pid start := by
@@ -528,5 +635,12 @@ theorem scanPartition_spec (cfg : Cfg) (st : ServerState) (pid start : Nat) (end
         have he : e ∈ L.take count := List.mem_of_getLast? hg
         have := take_lt_drop L count hsorted e x he hxd
         simp only; omega
+
+/-- a stream (per bucket) lives in one partition -/
+theorem same_stream_same_pid (cfg : Cfg) (st : ServerState) (hwf : WF cfg.numPartitions st.abs) (e1 e2 : SEv)
+    (h1 : e1 ∈ st.events) (h2 : e2 ∈ st.events) (hs : e1.ev.stream = e2.ev.stream) : e1.ev.pid = e2.ev.pid := by
+  have m1 := mem_abs_events st e1 h1
+  have m2 := mem_abs_events st e2 h2
+  rw [(hwf.ids _ m1).2, (hwf.ids _ m2).2, hwf.keys _ m1 _ m2 hs]
 
 end SierraModel.Server
